@@ -33,8 +33,9 @@ func writtenGlobals(dir string, entries []string) ([]string, error) {
 	if files == nil {
 		return nil, nil
 	}
-	// package-level variables
+	// package-level variables; those of type sync.Once
 	globals := map[string]bool{}
+	onceVars := map[string]bool{}
 	for _, f := range files {
 		for _, d := range f.Decls {
 			gd, ok := d.(*ast.GenDecl)
@@ -42,6 +43,18 @@ func writtenGlobals(dir string, entries []string) ([]string, error) {
 				continue
 			}
 			for _, s := range gd.Specs {
+				vs := s.(*ast.ValueSpec)
+				isOnce := false
+				if se, ok := vs.Type.(*ast.SelectorExpr); ok && se.Sel.Name == "Once" {
+					if x, ok := se.X.(*ast.Ident); ok && x.Name == "sync" {
+						isOnce = true
+					}
+				}
+				for _, n := range vs.Names {
+					if isOnce {
+						onceVars[n.Name] = true
+					}
+				}
 				for _, n := range s.(*ast.ValueSpec).Names {
 					if n.Name != "_" {
 						globals[n.Name] = true
@@ -100,6 +113,7 @@ func writtenGlobals(dir string, entries []string) ([]string, error) {
 		body   *ast.BlockStmt
 		params map[string]bool
 		recv   string // receiver name of a method with a pointer receiver ("" otherwise)
+		rname  string // receiver name, pointer or value
 		method bool
 		plist  []string // parameter names in order ("" for unnamed / blank); nil if variadic
 	}
@@ -134,6 +148,9 @@ func writtenGlobals(dir string, entries []string) ([]string, error) {
 			}
 			if fd.Recv != nil && len(fd.Recv.List) == 1 {
 				f0.method = true
+				if len(fd.Recv.List[0].Names) == 1 {
+					f0.rname = fd.Recv.List[0].Names[0].Name
+				}
 				if _, ptr := fd.Recv.List[0].Type.(*ast.StarExpr); ptr && len(fd.Recv.List[0].Names) == 1 {
 					f0.recv = fd.Recv.List[0].Names[0].Name
 				}
@@ -665,6 +682,59 @@ func writtenGlobals(dir string, entries []string) ([]string, error) {
 		seen[name] = true
 		for _, f := range funcs[name] {
 			loc := localNames(f.body)
+			// `once.Do(func() { ... })` on a package-level sync.Once, the literal using nothing of the
+			// enclosing call (no parameter, no local): what it builds is built one time, from package-level
+			// data only, and published by Do's synchronisation — not a write that a later call or another
+			// goroutine can observe half-done or that depends on the history of calls
+			onceLits := map[ast.Node]bool{}
+			ast.Inspect(f.body, func(n ast.Node) bool {
+				call, ok := n.(*ast.CallExpr)
+				if !ok || len(call.Args) != 1 {
+					return true
+				}
+				se, ok := call.Fun.(*ast.SelectorExpr)
+				if !ok || se.Sel.Name != "Do" {
+					return true
+				}
+				id, ok := se.X.(*ast.Ident)
+				if !ok || !onceVars[id.Name] || loc[id.Name] {
+					return true
+				}
+				fl, ok := call.Args[0].(*ast.FuncLit)
+				if !ok {
+					return true
+				}
+				own := localNames(fl.Body)
+				outer := map[string]bool{}
+				for k := range loc {
+					if !own[k] {
+						outer[k] = true
+					}
+				}
+				for _, pn := range f.plist {
+					if pn != "" && pn != "_" && !own[pn] {
+						outer[pn] = true
+					}
+				}
+				if f.rname != "" && f.rname != "_" && !own[f.rname] {
+					outer[f.rname] = true
+				}
+				if f.plist == nil {
+					return true // variadic enclosing function: parameter names unknown here
+				}
+				closed := true
+				ast.Inspect(fl.Body, func(m ast.Node) bool {
+					if x, ok := m.(*ast.Ident); ok && outer[x.Name] {
+						closed = false
+					}
+					return true
+				})
+				if closed {
+					onceLits[fl] = true
+					onceLits[call] = true
+				}
+				return true
+			})
 			isGlobal := func(e ast.Expr) (string, bool) {
 				for {
 					switch x := e.(type) {
@@ -695,6 +765,9 @@ func writtenGlobals(dir string, entries []string) ([]string, error) {
 					if n == nil {
 						stack = stack[:len(stack)-1]
 						return true
+					}
+					if onceLits[n] {
+						return false
 					}
 					var gs map[string]bool
 					switch x := n.(type) {
@@ -780,6 +853,9 @@ func writtenGlobals(dir string, entries []string) ([]string, error) {
 				})
 			}
 			ast.Inspect(f.body, func(n ast.Node) bool {
+				if n != nil && onceLits[n] {
+					return false
+				}
 				switch x := n.(type) {
 				case *ast.AssignStmt:
 					if x.Tok != token.DEFINE {
